@@ -59,12 +59,13 @@ Definition apply_ops (g : graph) (ops : list wop) : graph := fold_left apply_op 
 
 (* ---- statements (the family the harness generates; concrete Cypher in c13.rs/c24.rs) ---- *)
 
-(* rest of an UNWIND row [k, v, n]; the per-row expression is toInteger(r[1]) + 0 * size(range(1, r[2])):
-   CInt z : v = z, n = 1                      -> z
-   CBad   : v = true                          -> "runtime error: InvalidArgumentValue"
-   CLimit : v = 1, n = 1000000 (above max_collection_items)
-                                              -> "execution error: ResourceLimitExceeded(kind=CollectionItems ..)" *)
-Inductive cell := CInt (z : Z) | CBad | CLimit.
+(* rest of an UNWIND row [k, v, 1]; the per-row expression is toInteger(r[1]) + 0 * size(range(1, r[2])):
+   CInt z : v = z     -> z
+   CBad   : v = true  -> "runtime error: InvalidArgumentValue"
+   (a collection-size limit violation through r[2] was tried as a third kind of failing cell: the limit
+   is not enforced for range() inside a CREATE / SET property expression — the statement succeeds —
+   so there is no such cell) *)
+Inductive cell := CInt (z : Z) | CBad.
 
 Inductive stmt :=
 | SCreate (rows : list (Z * cell))         (* UNWIND rows AS r CREATE (:L {k: r[0], v: <expr r>}) *)
@@ -83,7 +84,6 @@ Fixpoint eval_create (next : N) (rows : list (Z * cell)) : list wop * bool :=
   match rows with
   | [] => ([], true)
   | (k, CBad) :: _ => ([WCreate next k], false)
-  | (k, CLimit) :: _ => ([WCreate next k], false)
   | (k, CInt v) :: t =>
       let '(ops, ok) := eval_create (N.succ next) t in
       (WCreate next k :: WSetProp next 0%N v :: ops, ok)
@@ -94,7 +94,6 @@ Fixpoint eval_set (p : N) (rows : list (N * cell)) : list wop * bool :=
   match rows with
   | [] => ([], true)
   | (_, CBad) :: _ => ([], false)
-  | (_, CLimit) :: _ => ([], false)
   | (id, CInt v) :: t => let '(ops, ok) := eval_set p t in (WSetProp id p v :: ops, ok)
   end.
 
